@@ -1,5 +1,6 @@
 import Props.C13
 import Lemmas.Rerun
+import Lemmas.SharedTask
 /-!
 # C15 — concurrency never exceeds the configured bound; serial means one at a time
 
@@ -201,6 +202,25 @@ theorem serial_one_at_a_time (c : Cfg) (hser : c.serial = true) (s : Sched) (hr 
       · simp at h1
   exact (this evs initSched i (serial_init c) ha).one
 
+/-! ## a Task shared by two graphs -/
+
+/-- **A Task shared by two graphs that run concurrently never executes twice at the same time.**  Two copies of the
+scheduler LTS (any two graphs, any limits, serial or not) whose only coupling is the Task's mutex — a `lockAcq v` of
+one graph needs the other graph's goroutine for `v` not to hold it, which is what `sync.Mutex` provides; the
+goroutine holds it from `lockAcq` until its result has been received (`v.Task.Lock(); defer v.Task.Unlock()` before the
+first attempt): in every reachable state of the pair the function of `v` is executing in at most one of them, for
+every attempt number. -/
+theorem shared_task_never_runs_twice (c1 c2 : Cfg) (p : Sched × Sched) (hr : PairReachable c1 c2 p)
+    (v k1 k2 : Nat) : ¬ ((p.1.get v).fl = .running k1 ∧ (p.2.get v).fl = .running k2) := by
+  intro h
+  exact reachable_exclusive c1 c2 p hr v ⟨running_holds p.1 v k1 h.1, running_holds p.2 v k2 h.2⟩
+
+/-- the step that matters: while one graph's goroutine holds the mutex the other graph cannot take it, whatever else
+either graph does in the meantime (`step_holds`: only its own `lockAcq` makes a goroutine a holder) -/
+theorem lock_acquired_only_by_lockAcq (c : Cfg) (s s' : Sched) (ev : Event) (v : Nat)
+    (h : step? c s ev = some s') (hl : holdsLock s' v = true) : holdsLock s v = true ∨ ev = .lockAcq v :=
+  step_holds c s s' ev v h hl
+
 /-! Non-vacuity: with `maxParallel = 1` a second independent task cannot take a slot. -/
 def twoCfg : Cfg := { g := buildGraph [.addTask (t 1), .addTask (t 2)], maxParallel := 1 }
 
@@ -208,6 +228,12 @@ example : (accept twoCfg initSched [.pickReal 1, .pickReal 2, .semAcq 1, .semAcq
   decide
 example : (accept twoCfg initSched [.pickReal 1, .pickReal 2, .semAcq 1, .lockAcq 1, .enter 1 0, .leave 1 0 .ok,
     .recv 1 .ok, .semRel 1, .semAcq 2] 0).toOption.isSome = true := by
+  decide
+
+-- a goroutine inside its function holds the mutex; before `lockAcq` it does not
+example : ((accept twoCfg initSched [.pickReal 1, .semAcq 1, .lockAcq 1, .enter 1 0] 0).toOption.map fun s =>
+    (holdsLock s 1, (s.get 1).fl)) = some (true, .running 0) ∧
+    ((accept twoCfg initSched [.pickReal 1, .semAcq 1] 0).toOption.map fun s => holdsLock s 1) = some false := by
   decide
 
 end GoModel.Dag
